@@ -89,8 +89,15 @@ class Check(Property):
                 if rng.random() < 0.3:
                     seq.append(k + "s")
             self.bump("history")
-            out.append({"kind": "history", "seq": seq,
-                        "ops": [{"op": "reset"}] + [{"op": "get_name", "s": s} for s in seq] + [{"op": "reset"}]})
+            # afterwards the same family of spellings is asked with a per-call case-insensitive override: a unit registered
+            # on the fly must not have become a stem (for prefixes, plurals or case folding) in that mode either
+            probes = []
+            for s1 in seq[:3]:
+                probes += [rng.choice(P.prefix_keys) + s1, s1.upper(), s1.capitalize() + "s"]
+            probes = [x for x in probes if x.isascii()]
+            out.append({"kind": "history", "seq": seq, "probes": probes,
+                        "ops": [{"op": "reset"}] + [{"op": "get_name", "s": s} for s in seq]
+                        + [{"op": "get_name", "s": s, "cs": False} for s in probes] + [{"op": "reset"}]})
         # per-call case_sensitive overrides must not leak into later default-mode lookups of the same string
         for _ in range(300 if self.tier == "quick" else 4000):
             k = rng.choice(keys)
@@ -135,7 +142,8 @@ class Check(Property):
         if c["kind"] == "history":
             u = regs.fresh("float") if self.rng.random() < 0.15 or not hasattr(self, "_hreg") else self._hreg
             self._hreg = u
-            return [{"ok": None}] + [capture(lambda s=s: u.get_name(s)) for s in c["seq"]] + [{"ok": None}]
+            return [{"ok": None}] + [capture(lambda s=s: u.get_name(s)) for s in c["seq"]] \
+                + [capture(lambda s=s: u.get_name(s, case_sensitive=False)) for s in c.get("probes", [])] + [{"ok": None}]
         if c["kind"] == "modemix":
             if not hasattr(self, "_mixreg"):
                 self._mixreg = regs.fresh("fraction")
@@ -185,6 +193,18 @@ class Check(Property):
             self._oreg = u
             for s in c["seq"]:
                 v += self.check_string(u, s, True, tag="after history " + repr(c["seq"]))
+            self._untouched_n = getattr(self, "_untouched_n", 0) + 1
+            if not hasattr(self, "_untouched") or self._untouched_n % 25 == 0:
+                self._untouched = regs.fresh("fraction")       # probes register units themselves: renew the reference regularly
+            for s in c.get("probes", []):
+                def ans(reg_):
+                    try:
+                        return ("ok", reg_.get_name(s, case_sensitive=False))
+                    except Exception as exc:  # noqa: BLE001
+                        return ("err", type(exc).__name__)
+                got, want = ans(u), ans(self._untouched)
+                if got[0] != want[0] or (got[0] == "ok" and got[1] != want[1] and want[0] == "ok" and not self._untouched_dirty(s)):
+                    v.append(f"C08 {s!r} with case_sensitive=False after the lookups {c['seq']}: {got}, an untouched registry gives {want}")
             return v
         if c["kind"] == "parse_units":
             return v
@@ -213,6 +233,9 @@ class Check(Property):
         if cs not in self._oracle_regs:
             self._oracle_regs[cs] = regs.fresh("fraction", case_sensitive=cs)
         return self.check_string(self._oracle_regs[cs], c["s"], cs)
+
+    def _untouched_dirty(self, s):
+        return False
 
     def check_string(self, u, s, cs, tag=""):
         P = regs.pools()
